@@ -18,7 +18,8 @@ EXPLANATION = (
     "result provenance) after renaming send().await<->blocking_send and rx.await<->blocking_recv; the envelope, reply-integrity and "
     "dead-letter pairing rules of C01/C03/C13 are evaluated on the blocking bodies as well. Dispatch of blocking_tell/blocking_ask is "
     "decided by decision table (None => no-timeout body, Some(d) => helper with d). The helper closure given to std::thread::spawn builds "
-    "a current-thread runtime with the timer enabled and block_on's the timeout wrapper (C10 shape rules); the caller returns what "
+    "a current-thread runtime with the timer enabled and block_on's the timeout wrapper (C10 shape rules and the C10 error mapping: only "
+    "the elapsed timer becomes Error::Timeout, other outcomes of the wrapped tell/ask pass through unchanged); the caller returns what "
     "rx.recv() yields, a dead helper maps to Error::Send. Runtime::block_on occurs only inside bodies passed to std::thread::spawn, so "
     "the timeout variants never start a runtime on the caller's (possibly async) thread. The deprecated aliases forward with constant None.")
 
